@@ -189,7 +189,11 @@ def check(spec, ctx):
     with warnings.catch_warnings():
         warnings.simplefilter("ignore")
         try:
+            from vf.core import snapshot
+
+            before = snapshot((cps, cas, vocab))
             ev = ctx.call(spec, f"{task}(|vocabulary|={nv})", fn, cps, cas, vocab)
+            ctx.unchanged(spec, f"{task}: clip predictions / clip annotations / tags", before, (cps, cas, vocab))
         except Exception:
             ctx.case(spec, nontrivial=False, labels=[task, f"|V|={min(nv, 3)}", "raised"])
             raise
